@@ -353,6 +353,19 @@ func (m *Model) status(s *Sub, idx int, call Iv) (Due, string) {
 				res = May
 			}
 		}
+		// same-step dead-letter copies that come LATER in the model's list may just
+		// as well have been enqueued first
+		if d.Forwarded {
+			for j := idx + 1; j < len(s.Dels); j++ {
+				p := s.Dels[j]
+				if !p.Forwarded || p.Enq != d.Enq || m.Msgs[p.Msg].Key != key {
+					continue
+				}
+				if (p.State == Outstanding || p.State == Unknown) && rel(call, p.Exp) != After {
+					res = May
+				}
+			}
+		}
 	}
 	return res, ""
 }
@@ -472,7 +485,7 @@ func (m *Model) Apply(c Call, o Obs) []Hit {
 		hits = m.applySeekS(c, o)
 	case "job":
 		hits = m.applyJob(c, o)
-	case "tick", "acknack", "updateSub", "modifyPush", "updateTopic":
+	case "tick", "acknack", "updateSub", "modifyPush", "updateTopic", "updateSubDL", "streamModack":
 		// nothing (only used by the fault-enumeration check, which does not consult the model's verdicts)
 	case "getTopic", "getSub", "getSnap", "listTopics", "listSubs", "listSnaps", "listTopicSubs", "delSnap":
 		hits = m.applyResource(c, o)
